@@ -30,8 +30,10 @@ type c09Case struct {
 	FreshProcess bool     `json:"fresh_process"`
 	// Intruders are other profiles used in the middle of the history: same terms, but the prefix name the subject
 	// profiles rely on (a built-in one, undeclared) is declared with another namespace
-	Intruders    []string `json:"intruders,omitempty"`
-	IntruderDocs []string `json:"intruder_docs,omitempty"`
+	// CtxFiles are context documents some data documents refer to by path (path -> content)
+	CtxFiles     map[string]string `json:"ctx_files,omitempty"`
+	Intruders    []string          `json:"intruders,omitempty"`
+	IntruderDocs []string          `json:"intruder_docs,omitempty"`
 }
 
 func genProfileAndGraphs(t *rapid.T, name string, nGraphs int) (string, []*m.Graph, *m.Profile) {
@@ -136,6 +138,27 @@ func genC09(t *rapid.T) c09Case {
 		c.Docs = append(c.Docs, c.Docs[0]+pick(t, []string{"\n{\"@id\":\"http://ex.org/second-document\"}", " ]", "\n# a log line", "}\n", " trailing words", "\n[]", ","}, "trailing"))
 		c.DocKinds = append(c.DocKinds, "trailing-content")
 	}
+	// documents that name their @context by reference (a file), several of them sharing one context document
+	if rapid.IntRange(0, 2).Draw(t, "externalContext") == 0 {
+		c.CtxFiles = map[string]string{}
+		for i := range c.Docs {
+			if !strings.HasPrefix(c.DocKinds[i], "graph") {
+				continue
+			}
+			if out, files, ok := externaliseContext(c.Docs[i], rapid.IntRange(1, 3).Draw(t, "ctxMode")); ok {
+				c.Docs[i] = out
+				c.DocKinds[i] += " (context by reference)"
+				for p, content := range files {
+					c.CtxFiles[p] = content
+				}
+			}
+		}
+		// a second document over the same context file: the first graph document again, under another id
+		if len(c.CtxFiles) > 0 && strings.Contains(c.DocKinds[0], "by reference") {
+			c.Docs = append(c.Docs, strings.ReplaceAll(c.Docs[0], "http://ex.org/n/n0", "http://ex.org/n/other0"))
+			c.DocKinds = append(c.DocKinds, "graph (context by reference, shared)")
+		}
+	}
 	// long texts of which the reader consumes only a part (early syntax error, long trailing content)
 	if rapid.IntRange(0, 2).Draw(t, "abandonedInput") == 0 {
 		c.Docs = append(c.Docs, genAbandonedInput(t, c.Docs[0]))
@@ -151,7 +174,7 @@ func genC09(t *rapid.T) c09Case {
 		}
 	}
 	c.FreshProcess = rapid.IntRange(0, 5).Draw(t, "freshProcess") == 0
-	if rapid.IntRange(0, 2).Draw(t, "builtinPrefix") == 0 {
+	if rapid.IntRange(0, 2).Draw(t, "builtinPrefix") == 0 && len(c.CtxFiles) == 0 {
 		name := genBuiltinName(t)
 		other := "http://other.example.org/vocab/" + name + "#"
 		ok := true
@@ -209,6 +232,7 @@ func dropDate(report string) string {
 }
 
 func decideC09(c c09Case) ev.Verdict {
+	writeCtxFiles(c.CtxFiles)
 	qs := make([]*rego.PreparedEvalQuery, len(c.Profiles))
 	for i, p := range c.Profiles {
 		q, cc := compileProfile(p)
@@ -314,6 +338,9 @@ func decideC09(c c09Case) ev.Verdict {
 		}
 		prevKind = kind
 		v.Labels = append(v.Labels, "step:"+kind)
+		if strings.Contains(c.DocKinds[op.Doc], "by reference") {
+			v.Labels = append(v.Labels, "step:document-with-context-by-reference:"+kind)
+		}
 		if strings.Contains(c.DocKinds[op.Doc], "colliding") {
 			v.Labels = append(v.Labels, "step:document-with-a-checksum-twin")
 		}
